@@ -237,28 +237,39 @@ def run_c17(prog, job):
         def recycle_runs(st, mroot, label):
             """run one recycle to completion (or cancel it at its await); yields (state, outcome) with outcome in Ok / Err / cancelled / panic"""
             nonlocal npaths
-            conn = st.alloc(Agg('Conn', [Opaque('conn')])); met = st.alloc(Agg('Metrics', [Agg('Instant', [I(0)]), NONE, I(0)]))
+            conn = st.alloc(Agg('Conn', [Opaque('conn')]))
             st.log = st.log + (('act', 'recycle', label),)
             res = []
-            for st1, r in W.call(st, 'A', fn[0], [Ref(mroot), Ref(conn), Ref(met)]):
-                fr = st1.alloc(r[1])
-                work = [st1]
-                for _ in range(3):
-                    nxt = []
-                    for x in work:
-                        for y, r2 in W.dispatch(x, 'A', '<F as Future>::poll', [Agg('Pin', [Ref(fr)]), UNIT]):
-                            npaths += 1
-                            if r2[0] != 'ok': res.append((y, 'panic')); continue
-                            p = r2[1]
-                            if p.variant == 'Pending':
-                                # abandoned at the await (timeout / dropped get)
-                                yc = y.clone(); fut = yc.heap.pop(fr); yc.log = yc.log + (('act', 'cancel', label),)
-                                for w_, _r in W.drop(yc, 'A', [fut]): res.append((w_, 'cancelled'))
-                                nxt.append(y)
-                            else:
-                                y.heap.pop(fr, None); res.append((y, payload(p).variant))
-                    work = nxt
-                    if not work: break
+            # the metrics of the object are arbitrary: first reuse (never recycled) or any later one (symbolic count, symbolic idle time)
+            starts = []
+            for shape in ('first', 'later'):
+                s0 = st.clone()
+                if shape == 'first': met = s0.alloc(Agg('Metrics', [Agg('Instant', [I(0)]), NONE, I(0)]))
+                else:
+                    rc = s0.fresh('met_recycle_count'); s0.assume(z3.UGT(rc, 0))
+                    met = s0.alloc(Agg('Metrics', [Agg('Instant', [I(0)]), some(Agg('Instant', [I(1)])), rc]))
+                s0.log = s0.log + (('env', 'metrics', shape),)
+                starts.append((s0, met))
+            for st0, met in starts:
+              for st1, r in W.call(st0, 'A', fn[0], [Ref(mroot), Ref(conn), Ref(met)]):
+                  fr = st1.alloc(r[1])
+                  work = [st1]
+                  for _ in range(3):
+                      nxt = []
+                      for x in work:
+                          for y, r2 in W.dispatch(x, 'A', '<F as Future>::poll', [Agg('Pin', [Ref(fr)]), UNIT]):
+                              npaths += 1
+                              if r2[0] != 'ok': res.append((y, 'panic')); continue
+                              p = r2[1]
+                              if p.variant == 'Pending':
+                                  # abandoned at the await (timeout / dropped get)
+                                  yc = y.clone(); fut = yc.heap.pop(fr); yc.log = yc.log + (('act', 'cancel', label),)
+                                  for w_, _r in W.drop(yc, 'A', [fut]): res.append((w_, 'cancelled'))
+                                  nxt.append(y)
+                              else:
+                                  y.heap.pop(fr, None); res.append((y, payload(p).variant))
+                      work = nxt
+                      if not work: break
             return res
 
         def check_one(st, out, idx, c_expected):
